@@ -16,6 +16,9 @@ the `i64` range.
   (rounding of the halving: truncation toward zero — the
    property text leaves it open; `Int.tdiv`)              twoway_formulas
   when the two combinations do not fit: saturated values  twoway_saturated
+  (consequence: with true offset θ and path delays δ₁,δ₂,
+   delay = δ₁+δ₂ exactly and |offset − θ| ≤ (δ₁+δ₂+1)/2,
+   = θ on a symmetric path)                               twoway_error_bound
   T1..T4 = client send, server receive, server transmit,
     client receive timestamps                             extraction, exchange_from_packet
   for every exchange (any history of measurements before) exchange_delivers
@@ -65,6 +68,44 @@ theorem twoway_saturated (t1 t2 t3 t4 : Int)
 /-- saturation is reached: t₂−t₁ = t₃−t₄ = 2⁶³−1;  (t₄−t₁)−(t₃−t₂) = 2⁶³−1+2⁶² -/
 example : twoWayOffset (wire 0) (wire (2^63 - 1)) (wire (2^63 - 1)) (wire 0) = some 4611686018427387903
     ∧ twoWayDelay (wire 0) (wire (2^62)) (wire 0) (wire (2^63 - 1)) = I64_MAX := by decide
+
+theorem tdiv2_near (x : Int) : x - 1 ≤ 2 * Int.tdiv x 2 ∧ 2 * Int.tdiv x 2 ≤ x + 1 ∧ (x % 2 = 0 → 2 * Int.tdiv x 2 = x) := by
+  by_cases h : x < 0
+  · have h1 : Int.tdiv x 2 = -((-x) / 2) := by
+      have : x = -(-x) := by omega
+      rw [this, Int.neg_tdiv, Int.tdiv_eq_ediv_of_nonneg (by omega)]; simp
+    rw [h1]; omega
+  · rw [Int.tdiv_eq_ediv_of_nonneg (by omega)]; omega
+
+/-- The classical NTP guarantee, on the code's own arithmetic and across era boundaries: if the server clock
+    is ahead of the client clock by `θ`, the request takes `δ₁ ≥ 0`, the server holds it for `p`, and the
+    answer takes `δ₂ ≥ 0`, then the reported delay is exactly `δ₁ + δ₂` and the reported offset is within
+    half the delay (plus the half unit lost by the truncating halving) of `θ`, and exactly `θ` on a symmetric path. -/
+theorem twoway_error_bound (t1 θ δ1 δ2 p : Int) (h1 : 0 ≤ δ1) (h2 : 0 ≤ δ2)
+    (h21 : inI64 (δ1 + θ)) (h34 : inI64 (θ - δ2)) (h41 : inI64 (δ1 + p + δ2)) (h32 : inI64 p)
+    (hs : inI64 (2 * θ + δ1 - δ2)) (hd : inI64 (δ1 + δ2)) :
+    ∃ o, twoWayOffset (wire t1) (wire (t1 + δ1 + θ)) (wire (t1 + δ1 + θ + p)) (wire (t1 + δ1 + p + δ2)) = some o ∧
+      twoWayDelay (wire t1) (wire (t1 + δ1 + θ)) (wire (t1 + δ1 + θ + p)) (wire (t1 + δ1 + p + δ2)) = δ1 + δ2 ∧
+      2 * (o - θ).natAbs ≤ δ1 + δ2 + 1 ∧ (δ1 = δ2 → o = θ) := by
+  have e1 : t1 + δ1 + θ - t1 = δ1 + θ := by omega
+  have e2 : t1 + δ1 + θ + p - (t1 + δ1 + p + δ2) = θ - δ2 := by omega
+  have e3 : t1 + δ1 + p + δ2 - t1 = δ1 + p + δ2 := by omega
+  have e4 : t1 + δ1 + θ + p - (t1 + δ1 + θ) = p := by omega
+  have hf := twoway_formulas t1 (t1 + δ1 + θ) (t1 + δ1 + θ + p) (t1 + δ1 + p + δ2)
+    (by rw [e1]; exact h21) (by rw [e2]; exact h34) (by rw [e3]; exact h41) (by rw [e4]; exact h32)
+    (by rw [e1, e2]; have : δ1 + θ + (θ - δ2) = 2 * θ + δ1 - δ2 := by omega
+        rw [this]; exact hs)
+    (by rw [e3, e4]; have : δ1 + p + δ2 - p = δ1 + δ2 := by omega
+        rw [this]; exact hd)
+  rw [e1, e2, e3, e4] at hf
+  refine ⟨_, hf.1, by rw [hf.2]; omega, ?_, ?_⟩
+  · have := tdiv2_near (δ1 + θ + (θ - δ2)); omega
+  · intro he; subst he
+    have := tdiv2_near (δ1 + θ + (θ - δ1)); omega
+
+/-- era-crossing instance: θ = 1000, δ₁ = 30, δ₂ = 10, p = 7 around 2⁶⁴ -/
+example : twoWayOffset (wire (2^64 - 20)) (wire (2^64 - 20 + 30 + 1000)) (wire (2^64 - 20 + 30 + 1000 + 7))
+    (wire (2^64 - 20 + 30 + 7 + 10)) = some 1010 ∧ (1010 - 1000 : Int).natAbs * 2 ≤ 30 + 10 + 1 := by decide
 
 /-- Extraction: the outgoing measurement carries (T1 = send time, T2 = the packet's receive timestamp),
     the incoming one (T3 = the packet's transmit timestamp, T4 = receive time). -/
@@ -141,3 +182,4 @@ end NtpVerif.C05
 #print axioms NtpVerif.C05.exchange_from_packet
 #print axioms NtpVerif.C05.never_panics
 #print axioms NtpVerif.C05.oneway_offset
+#print axioms NtpVerif.C05.twoway_error_bound
